@@ -158,7 +158,7 @@ def no_overlap_ref():
     quarter_off = half_off + 1     # 1077: below a power of two the spacing halves
     bits = call("core::f64::<impl f64>::to_bits", a)
     fabs = call("libm::fabs", b)
-    e = mk("cast", "IntToInt", "u64", "i16", mk("i", "bitand", "u64", mk("i", "shr", "u64", bits, mk("const", "i32", 52)), mk("const", "u64", 0x7ff)))
+    e = mk("cast", "IntToInt", "u64", "i16", mk("i", "bitand", "u64", mk("i", "shr", "u64", bits, mk("const", "u32", 52)), mk("const", "u64", 0x7ff)))
     def limit(off):
         return call("libm::exp2", mk("cast", "IntToFloat", "i16", "f64", mk("i", "sub", "i16", e, mk("const", "i16", off))))
     even = cmp("eq", mk("i", "bitand", "u64", bits, mk("const", "u64", 1)), mk("const", "u64", 0), "u64")
